@@ -214,11 +214,29 @@ def gen_case(rnd, seeds, big_seeds):
     seed = rnd.choice(seeds)
     if c < 8:
         return "a:valid", seed.encode("latin-1"), tool, ()
-    if c < 45:
+    if c < 38:
         text = seed
         for _ in range(rnd.choice([1, 1, 1, 2, 3])):
             text, kind = M.token_mutant(text, rnd)
         return "b:" + kind, text.encode("latin-1"), tool, ()
+    if c < 46:
+        # declarations referring to each other in a ring (constants, derived attributes, types, functions, supertypes, interface
+        # clauses ...), used where the tools evaluate or follow the reference
+        text, kind = M.ref_cycle(seed, rnd)
+        # the back ends follow references the checker only records: all four tools equally often here
+        return "g:" + kind, text.encode("latin-1"), rnd.choice(["check-express", "exppp", "exp2cxx", "exp2python"]), ()
+    if c < 52:
+        # one semantic single-fault template (the resolver's error paths: undefined / duplicate / cyclic names ...)
+        names = sorted(M.TEMPLATES)
+        for _ in range(4):
+            tn = rnd.choice(names)
+            try:
+                m = M.make(tn, seed, rnd.randrange(1 << 48))
+            except Exception:
+                m = None
+            if m is not None:
+                return "h:template:" + tn, m["text"].encode("latin-1", "replace"), tool, ()
+        return "a:valid", seed.encode("latin-1"), tool, ()
     if c < 72:
         data = seed.encode("latin-1")
         for _ in range(rnd.choice([1, 1, 2])):
